@@ -117,6 +117,8 @@ where
         }
 
         if needs_update(&self.reactivity) {
+            #[cfg(leptos_verif)]
+            crate::verif_yield("memo:needs_update");
             // No deadlock risk, because we only hold the value lock.
             let value = self.value.write().or_poisoned().take();
 
@@ -137,6 +139,8 @@ where
                 })
             });
 
+            #[cfg(leptos_verif)]
+            crate::verif_yield("memo:computed");
             // Two locks are aquired, so order matters.
             let reactivity_lock = self.reactivity.write().or_poisoned();
             {
